@@ -860,7 +860,35 @@ def native_bounded(classes=None):
             'cases': n, 'skipped': skipped[:6]}
 
 
+def parser_purity():
+    """anchor of the assumed contract T4 (json_getval(text) is a fresh value that depends on the text only): the real utils.json_getval carries no decorator, and natively parsing the
+    same text twice yields independent objects (a shared mutable value would leak one configuration's in-place normalisation into another)"""
+    fn = extract.load(UTILS).find('json_getval')
+    decos = [ast.unparse(d) for d in getattr(fn, 'decorator_list', [])]
+    import logging
+    logging.disable(logging.CRITICAL)
+    from openfilter.filter_runtime.utils import json_getval as real_getval
+    from openfilter.filter_runtime.filter import Filter as RealFilter
+    shared = []
+    a, b = real_getval('{"crf": [23]}'), real_getval('{"crf": [23]}')
+    if a is b:
+        shared.append('json_getval returns the SAME object for the same text')
+    o1 = RealFilter.parse_options('file://a.mp4!params={"crf": 23}')[1].get('params')
+    o2 = RealFilter.parse_options('file://a.mp4!params={"crf": 23}')[1].get('params')
+    if o1 is o2 and isinstance(o1, dict):
+        shared.append('parse_options returns the same dict for two parses of the same text')
+    return decos, shared
+
+
 def extra_checks(tier, seed, pool):
+    decos, shared = parser_purity()
+    extra_fail, extra_err = [], []
+    if shared:
+        extra_fail.append({'obligation': 'C11.inverse (anchor of T4): parsing a text yields a fresh value that depends on the text only', 'unit': 0, 'shape': 'anchor', 'model': None, 'extra': None, 'goal': '',
+                           'path_condition': [], 'solver': 'syntactic anchor + native check',
+                           'native': {'confirmed': True, 'inputs': 'the same option text parsed twice', 'observed': shared + [f'decorators of json_getval: {decos}'], 'required': 'independent values'}})
+    elif decos:
+        extra_err.append({'error': f'contract no longer binds: utils.json_getval is decorated ({decos}); the assumed contract T4 is stated for the plain function', 'traceback': ''})
     r = native_bounded()
     out = {'bounded': [{'clause': 'C11.idempotent.<Class> and C11.text_equals_struct.<Class> for the ten filter classes', 'kind': 'BOUNDED native check on documented-grammar configurations (not a proof)',
                         'bound': 'the configurations of contracts/c11.py GRAMMAR (2-3 per class, whitespace variation, structured re-normalisation)', 'cases': r['cases'],
@@ -869,6 +897,10 @@ def extra_checks(tier, seed, pool):
     if r['confirmed']:
         out['failures'] = [{'obligation': 'C11 (bounded): a filter class is not idempotent / text form differs from structured form', 'unit': 1, 'shape': 'bounded', 'model': None, 'extra': None, 'goal': '',
                             'path_condition': [], 'solver': 'bounded native check', 'native': r}]
+    if extra_fail:
+        out['failures'] = out.get('failures', []) + extra_fail
+    if extra_err:
+        out['errors'] = extra_err
     return out
 
 
